@@ -22,6 +22,12 @@ class SchedCondition:
         del self.sched.waiters[c]
         return w['verdict']
 
+    def notify(self, n=1):
+        for w in self.sched.waiters.values():
+            if w['cond'] is self and not w['notified'] and n > 0:
+                w['notified'] = True
+                n -= 1
+
     def notify_all(self):
         for w in self.sched.waiters.values():
             if w['cond'] is self:
